@@ -22,6 +22,10 @@ def pre_gen(n0, n1, n2, p0, p1, p2, x, y, z):
         ok = ok and 0 <= n2 <= N
     else:
         ok = ok and n2 == 0
+    L = P("L")
+    if L is not None:  # exact lengths
+        for want, got in zip(L, (n0, n1, n2)):
+            ok = ok and got == want
     name = P("op")
     if P("pr", True):  # small parameter ranges (real C tools are the oracle)
         R = P("PR", N + 2)
